@@ -86,8 +86,9 @@ func normalizeSymbolicLinkAndEnsurePortable(path, target string) (string, error)
 	pathDepth := strings.Count(path, "/")
 	for _, component := range strings.Split(target, "/") {
 		// Update the depth.
-		if component == "." {
-			// No change to depth.
+		if component == "." || component == "" {
+			// No change to depth. An empty component (a repeated or trailing
+			// slash) is ignored by path resolution, just like ".".
 		} else if component == ".." {
 			pathDepth--
 		} else {
